@@ -600,3 +600,22 @@ def result_is_tested(ctx, site_row) -> bool:
                 if used & names:
                     return True
     return False
+
+
+def over_reads(ctx, modnames):
+    """`x.read(max(a, b, ...))`: the request is the LARGER of what is still needed and something else, so the call may take
+    bytes that belong to whatever follows the item (a chunked reader wants min())."""
+    out = []
+    for mn in modnames:
+        src = ctx.sm.get(mn)
+        if src is None:
+            continue
+        qidx = qualname_index(src.tree)
+        for node in ast.walk(src.tree):
+            if isinstance(node, ast.Call) and isinstance(node.func, ast.Attribute) and node.func.attr in ("read", "recv", "read1") and node.args:
+                a = node.args[0]
+                if isinstance(a, ast.Call) and isinstance(a.func, ast.Name) and a.func.id == "max" and len(a.args) >= 2:
+                    q, fn = enclosing(qidx, src.tree, node)
+                    out.append({"function": f"{mn}:{q}", "stmt": ast.unparse(node)[:100], "file": src.rel, "line": node.lineno,
+                                "size": ast.unparse(a)})
+    return out
